@@ -46,16 +46,50 @@ def operand_lets(kinds, enc):
             s += f'let o{i} = b0.u({p}, {enc}.address_size as int) as int; let p{i + 1} = {p} + {enc}.address_size as int; '
             extra.append(f'valid_address_size({enc}.address_size)')
         elif k == 'len4':
-            s += f'let o{i} = len4_val(b0, {p}, {enc}.version); let p{i + 1} = {p} + len4_size(b0, {p}, {enc}.version); '
+            s += f'let o{i} = len4_val(b0, {p}, {enc}.version) as int; let p{i + 1} = {p} + len4_size(b0, {p}, {enc}.version) as int; '
         elif k == 'cld':
-            s += f'let o{i} = cld_len(b0, {p}, {enc}.version); let d{i} = {p} + cld_hdr(b0, {p}, {enc}.version); let p{i + 1} = d{i} + o{i}; '
+            s += f'let o{i} = cld_len(b0, {p}, {enc}.version) as int; let d{i} = {p} + cld_hdr(b0, {p}, {enc}.version) as int; let p{i + 1} = d{i} + o{i}; '
             extra.append(f'window(b0, data.0.rv(), d{i} as nat, o{i} as nat)')
     s += f'let total = p{len(kinds)}; '
     return s, extra
 
 
+def entry_spec(loc):
+    """ghost predicate  <P>_entry(b0, enc, coded, e, b1): entry `e` is what the bytes at b0 encode, b1 = reader after it.
+    coded = DW_RLE_* / DW_LLE_* kind-byte encoding; !coded = legacy pair format (DWARF 2-4 section 2.17.3 / 2.6.2):
+    two address-size fields; (0,0) ends the list; begin == all-ones selects a new base address (the end field)"""
+    table, ename, P, gen, ety = ((LLE, 'RawLocListEntry', 'lle', '<R: Reader<Offset = usize>>', 'RawLocListEntry<R>') if loc else
+                                 (RLE, 'RawRngListEntry', 'rle', '<T: ReaderOffset>', 'RawRngListEntry<T>'))
+    arms = ''
+    for name, kind, ops, pat, cons in table:
+        lets, extra = operand_lets(ops, 'enc')
+        c = ' && '.join([f'({cons})'] + extra)
+        arms += f'            {pat} => {{ {lets} b0.at(0) == {kind:#04x} && {c} && adv(b0, b1, total as nat) }},\n'
+    arms += f'            {ename}::AddressOrOffsetPair {{ .. }} => false,\n'
+    if loc:
+        pair = (f'            {ename}::AddressOrOffsetPair {{ begin, end, data }} => b0.u(0, s) != ones(enc.address_size) && begin == b0.u(0, s) && end == b0.u(s, s) '
+                f'&& !(begin == 0 && end == 0) && window(b0, data.0.rv(), (2 * s + 2) as nat, b0.u(2 * s, 2)) && adv(b0, b1, (2 * s + 2 + b0.u(2 * s, 2)) as nat),\n')
+    else:
+        pair = (f'            {ename}::AddressOrOffsetPair {{ begin, end }} => b0.u(0, s) != ones(enc.address_size) && begin == b0.u(0, s) && end == b0.u(s, s) '
+                f'&& !(begin == 0 && end == 0) && adv(b0, b1, (2 * s) as nat),\n')
+    return f'''
+pub open spec fn {P}_entry{gen}(b0: RView, enc: Encoding, coded: bool, e: {ety}, b1: RView) -> bool {{
+    if coded {{
+        match e {{
+{arms}        }}
+    }} else {{
+        let s = enc.address_size as int;
+        valid_address_size(enc.address_size) && match e {{
+            {ename}::BaseAddress {{ addr }} => b0.u(0, s) == ones(enc.address_size) && addr == b0.u(s, s) && adv(b0, b1, (2 * s) as nat),
+{pair}            _ => false,
+        }}
+    }}
+}}
+'''
+
+
 def decode_clauses(loc, coded, enc, B0, B1, res='res'):
-    """clauses relating a decoded raw entry to the bytes at B0 (B1 = reader after the entry)"""
+    """per-kind clauses relating a decoded raw entry to the bytes at B0 (B1 = reader after the entry)"""
     table, ename, P = ((LLE, 'RawLocListEntry', 'lle') if loc else (RLE, 'RawRngListEntry', 'rle'))
     out = []
     SOME = f'({coded}) ==> ({res} matches Ok(Some(e))'
@@ -67,8 +101,6 @@ def decode_clauses(loc, coded, enc, B0, B1, res='res'):
                    f'(e matches {pat} && {c} && adv(b0, {B1}, total as nat)) }}) }}))')
     last = table[-1][1]
     out.append(f'[C08:{P}-kinds] {SOME} ==> 1 <= {B0}.at(0) <= {last:#04x})')
-    # legacy pair format (DWARF 2-4 section 2.17.3 / 2.6.2): two address-size fields; (0,0) ends the list;
-    # begin == all-ones selects a new base address (the end field)
     S = f'{enc}.address_size'
     BS = f'!({coded}) ==> ({res} matches Ok(Some(e))'
     out.append(f'[C08:pair-base-select] {BS} ==> ({{ let b0 = {B0}; let s = {S} as int; b0.u(0, s) == ones({S}) ==> '
@@ -89,7 +121,7 @@ def parse_clauses(loc):
     encf, bare, P, err = (('LocListsFormat::Lle', 'LocListsFormat::Bare', 'lle', 'UnknownLocListsEntry') if loc else
                           ('RangeListsFormat::Rle', 'RangeListsFormat::Bare', 'rle', 'UnknownRangeListsEntry'))
     last = (LLE if loc else RLE)[-1][1]
-    out = decode_clauses(loc, f'format matches {encf}', enc, B0, B1)
+    out = [f'[C08:{P}-decode][C08:pair-decode][C10:view] res matches Ok(Some(e)) ==> {P}_entry({B0}, encoding, format matches {encf}, e, {B1})']
     S = 'encoding.address_size'
     out += [
         f'[C08:{P}-end] (format matches {encf} && res matches Ok(None)) ==> {B0}.at(0) == 0 && adv({B0}, {B1}, 1)',
@@ -108,7 +140,9 @@ def parse_clauses(loc):
 def next_raw_clauses(loc):
     """RawRngListIter::next / RawLocListIter::next: iterator protocol + raw iteration exposes the encoded entry unchanged"""
     B0, B1 = 'old(self).inp()', 'final(self).inp()'
-    out = decode_clauses(loc, 'old(self).coded()', 'old(self).enc()', B0, B1)
+    P = 'lle' if loc else 'rle'
+    out = [f'[C08:raw-unchanged] res matches Ok(Some(e)) ==> {P}_entry({B0}, old(self).enc(), old(self).coded(), e, {B1})']
+    out += decode_clauses(loc, 'old(self).coded()', 'old(self).enc()', B0, B1)
     out += [
         f'[C01:iter-empty] {B0}.len == 0 ==> res matches Ok(None)',
         f'[C01:iter-err-empties] res is Err ==> {B1}.len == 0',
@@ -168,6 +202,7 @@ use crate::vspec::*;''')
         '[C01:frame] within(old(input).rv(), final(input).rv())'])
     sk.add(M, rri)
     sk.add(M, rng.item(r'^pub struct Range \{').clean())
+    sk.add(M, entry_spec(False), label='rle_entry')
     rep = rng.item(r'^impl<T: ReaderOffset> RawRngListEntry<T>', label='RawRngListEntry').clean()
     rep.splice('parse', ret='res', ensures=parse_clauses(False), owners=['C01', 'C08'], before=[('if range.is_end()', LEMF)])
     sk.add(M, rep)
@@ -192,9 +227,11 @@ use crate::vspec::*;''')
     pd.splice('parse_data', ret='res', ensures=[
         '[C08:counted-location][C10:view] res matches Ok(x) ==> ({ let b0 = old(input).rv(); '
         'let n = cld_len(b0, 0, encoding.version); let h = cld_hdr(b0, 0, encoding.version); '
-        'window(b0, x.0.rv(), h as nat, n as nat) && adv(b0, final(input).rv(), (h + n) as nat) })',
-        '[C01:frame] within(old(input).rv(), final(input).rv())'], owners=['C01', 'C08'])
+        'window(b0, x.0.rv(), h, n) && adv(b0, final(input).rv(), h + n) })',
+        '[C01:frame] within(old(input).rv(), final(input).rv())'], owners=['C01', 'C08'],
+        before=[('if encoding.version >= 5 {', 'proof { reveal(cld_hdr_at); reveal(cld_len_at); }')])
     sk.add(L, pd)
+    sk.add(L, entry_spec(True), label='lle_entry')
     lep = loc.item(r'^impl<R: Reader> RawLocListEntry<R>', label='RawLocListEntry').clean()
     lep.splice('parse', ret='res', ensures=parse_clauses(True), owners=['C01', 'C08'], before=[('if range.is_end()', LEMF)])
     sk.add(L, lep)
